@@ -161,6 +161,10 @@ func (c *Cluster) checkC04(n *SimNode) {
 		}
 		var txs [][]byte
 		var itxs int
+		inFrame := map[string]bool{}
+		for _, fe := range frame.Events {
+			inFrame[fe.Core.Hex()] = true
+		}
 		for _, fe := range frame.Events {
 			hash := fe.Core.Hex()
 			if _, dup := pos[hash]; dup {
@@ -176,13 +180,18 @@ func (c *Cluster) checkC04(n *SimNode) {
 				if p == "" {
 					continue
 				}
-				if _, ok := pos[p]; !ok && gap {
+				if _, ok := pos[p]; !ok && gap && !inFrame[p] {
+					// (a parent that sits later in this very frame is out of order
+					// whatever earlier frames could not be read)
 					continue
 				}
 				if _, ok := pos[p]; !ok {
 					c.violate("C04", "order-extends-ancestry", "parent-after-child", "node %d: event %s (frame %d) is committed before its parent %s", n.idx, short(hash), r, short(p))
 					return
 				}
+			}
+			if fe.LamportTimestamp == 0 && (de.SelfP != "" || de.OtherP != "") {
+				c.stats.probe("c04-frame-event-with-parents-and-lamport-zero")
 			}
 			pos[hash] = seq
 			seq++
